@@ -809,6 +809,53 @@ def wf_case(w):
 
 
 # ============================================================================================ findings
+def nonmem_roundtrip_model(spec):
+    """the smallest direct reproduction of C06-RUVSEARCH-STORED-MODEL-UNDEFINED-SYMBOL: a generic model with the random
+    variable names of the spec (tools/ruvsearch/tool.py:379 uses 'eta_base' / 'epsilon'), converted to NONMEM, its code
+    generated (update_source: update.py:1590 writes `$ABBR REPLACE eta_base=ETA(1)` with the name's own case,
+    records/code_record.py:157 NMTranPrinter._print_Symbol upper-cases the symbol in $PRED) and parsed again — what the model
+    database does when a tool stores / retrieves a model"""
+    import pandas as pd
+    import pharmpy.modeling as pm
+    from pharmpy.basic import Expr
+    from pharmpy.model import (Assignment, Model, NormalDistribution, Parameter, Parameters, RandomVariables, Statements)
+    eta, eps = spec.get('eta', 'eta_base'), spec.get('eps', 'epsilon')
+    theta, omega, sigma = Parameter('theta', 0.1), Parameter('omega', 0.01, lower=0), Parameter('sigma', 1, lower=0)
+    rvs = RandomVariables.create([NormalDistribution.create(eta, 'iiv', 0, omega.symbol),
+                                  NormalDistribution.create(eps, 'ruv', 0, sigma.symbol)])
+    y = Assignment.create(Expr.symbol('Y'), theta.symbol + Expr.symbol(eta) + Expr.symbol(eps))
+    m = Model.create(name='m', parameters=Parameters((theta, omega, sigma)), random_variables=rvs, statements=Statements([y]),
+                     dependent_variables={y.symbol: 1})
+    m = m.replace(dataset=pd.DataFrame({'ID': [1, 1, 2, 2], 'TIME': [0.0, 1.0, 0.0, 1.0], 'DV': [0.1, 0.2, 0.3, 0.1]}))
+    code = pm.convert_model(m, 'nonmem').update_source().code
+    return Model.parse_model_from_string(code)
+
+
+def undefined_symbols(w):
+    """(Python side, for IDENTIFYING a listed defect only) symbols of an exported model that canon would reject"""
+    known = set(w['base']) | {w['t'], 'NaN'}
+    out = []
+    for st in w['stmts']:
+        if st is None:
+            continue
+        lhs, fun, rhs = st
+        out += [x for x in rhs if x not in known]
+        if fun is None:
+            known.add(lhs)
+        else:
+            known.add(fun[0])
+            known.update(fun[1])
+    return sorted(set(out))
+
+
+def is_case_renamed_rv(w):
+    """every undefined symbol is the upper-cased name of a random variable whose own name is not upper case: the signature
+    of the $ABBR / $PRED case mismatch of the NONMEM code generator"""
+    rv_names = [n for d in w['rvs'] for n in d]
+    und = undefined_symbols(w)
+    return bool(und) and all(any(n != u and n.upper() == u for n in rv_names) for u in und)
+
+
 def finding_witness_case(f, tabs, B, fns):
     """witness of an open finding -> ('coq', term) | ('python', callable returning tags)"""
     w = f['witness']
@@ -841,6 +888,10 @@ def finding_witness_case(f, tabs, B, fns):
             except TypeError as e:
                 return [23], [f'{type(r).__name__}._statements is a {type(r._statements).__name__}: {e}']
         return 'python', probe
+    if kind == 'nonmem_roundtrip':
+        from harness.props import c06_oracle as oc
+        ex = oc.export_model('nonmem_roundtrip', nonmem_roundtrip_model(w))
+        return 'both', (wf_case(ex), [])
     if kind == 'returned':
         import pharmpy.modeling as pm
         from harness.props import c06_oracle as oc
@@ -902,7 +953,7 @@ def classify_tags(ctx, tags, spec, what_prefix=''):
 def finding_probes(ctx, tabs, B, fns):
     terms, fids = [], []
     for f in ctx.findings:
-        if f.get('status') != 'open' or f['witness'].get('kind') == 'tool_stored':
+        if f.get('status') != 'open':
             continue
         try:
             how, x = finding_witness_case(f, tabs, B, fns)
@@ -946,6 +997,20 @@ def wf_part(ctx, tabs, B, fns):
         if tags:
             ctx.violation(f"{sp['function']} modifies the dataset of the model passed to it: {'; '.join(detail)[:300]}",
                           {'spec': sp, 'tags': tags, 'tag_meaning': TAGS[21]})
+    # NONMEM code generation round trips: the listed lower-case-name case and controls
+    for sp in [s for s in specs if s.get('k') == 'roundtrip']:
+        from harness.props import c06_oracle as oc
+        ex = oc.export_model('nonmem_roundtrip', nonmem_roundtrip_model(sp))
+        ctags = ctx.run_cases('regress-roundtrip', IMPORTS, 'case', [wf_case(ex)], 'verdict')[0]
+        ctx.coverage['regress_roundtrip'] = ctx.coverage.get('regress_roundtrip', 0) + 1
+        for t in sorted(t for t in ctags if t in ORACLE_TAGS):
+            fid = sp.get('finding')
+            if t == 18 and fid and ctx.open_finding(fid) and is_case_renamed_rv(ex):
+                ctx.coverage.setdefault('known_hits', {}).setdefault(fid, 0)
+                ctx.coverage['known_hits'][fid] += 1
+            else:
+                ctx.violation(f"NONMEM code round trip of a model with rv names {sp.get('eta')}/{sp.get('eps')}: {TAGS[t]} "
+                              f"({undefined_symbols(ex)})", {'spec': sp, 'tags': [t], 'tag_meaning': TAGS[t]})
     # witnesses of repaired returned-model defects
     for sp in [s for s in specs if s.get('k') == 'returned']:
         w = dict(sp)
@@ -1136,11 +1201,11 @@ def oracle_part(ctx, eff):
             bad = sorted(t for t in tags if t in ORACLE_TAGS)
             for t in bad:
                 fid = RETURNED_FINDINGS.get((w['function'], t))
+                if fid == 'C06-RUVSEARCH-STORED-MODEL-UNDEFINED-SYMBOL' and not is_case_renamed_rv(w):
+                    fid = None                  # another undefined-symbol defect: not this finding
                 if fid and ctx.open_finding(fid):
                     ctx.coverage.setdefault('known_hits', {}).setdefault(fid, 0)
                     ctx.coverage['known_hits'][fid] += 1
-                    if ctx.open_finding(fid)['witness'].get('kind') == 'tool_stored':
-                        ctx.known(fid)          # this finding's witness IS the tool run of the oracle
                     continue
                 ctx.violation(f"model returned by {w['function']}: {TAGS[t]}",
                               {'kind': 'returned-model', 'model': w, 'tags': sorted(tags), 'tag_meaning': TAGS[t]})
